@@ -561,7 +561,7 @@ PLANS = {
                   ("rs_expT2.cfg", tc_ph, {}), ("rs_expT3.cfg", tc_ph, {}), ("rs_simSkip.cfg", tc_ph, SIMQ)],
         "thorough": [("rs_codedTags.cfg", "TagsScoped", {}), ("rs_codedTFR.cfg", "TagsObserved", {}), ("rs_mcT.cfg", NOREPLAY, {}),
                      ("rs_expT1.cfg", tc_ph, {}), ("rs_expT2.cfg", tc_ph, {}), ("rs_expT3.cfg", tc_ph, {}), ("rs_expT4.cfg", tc_ph, {}),
-                     ("rs_simSkip.cfg", tc_ph, SIMT), ("rs_sim.cfg", tc_ph, SIMT)],
+                     ("rs_expT5.cfg", tc_ph, {}), ("rs_simSkip.cfg", tc_ph, SIMT), ("rs_sim.cfg", tc_ph, SIMT)],
     },
 }
 NEEDED = {
